@@ -198,6 +198,36 @@ func genC20(r *Run) {
 			evals += exerciseC20(r, subject{"RelayOptions " + trunc(hx(w), 120), reflect.ValueOf(x.Options), m.ToBytes, nil}, maxSeq)
 		}
 	}
+	// messages that repeat an option the accessors expect once (two or three requested-option lists with
+	// different codes, several client ids, IA_NAs, status codes ...): accessors that merge or pick must not write back
+	for i := 0; i < r.N(120, 6000); i++ {
+		m6, _ := dhcpv6.NewMessage()
+		m6.TransactionID = dhcpv6.TransactionID{9, byte(i >> 8), byte(i)}
+		m6.MessageType = dhcpv6.MessageType(1 + r.Rng.Intn(11))
+		for k := 2 + r.Rng.Intn(2); k > 0; k-- {
+			var codes []dhcpv6.OptionCode
+			for j := 1 + r.Rng.Intn(4); j > 0; j-- {
+				codes = append(codes, dhcpv6.OptionCode(r.Pick(23, 24, 59, 60, 31, 56, 6, 82, 1000+r.Rng.Intn(5))))
+			}
+			m6.AddOption(dhcpv6.OptRequestedOption(codes...))
+		}
+		for k := r.Rng.Intn(3); k > 0; k-- {
+			dup := r.genOptCode(uint16(r.Pick(1, 2, 3, 8, 13, 23, 24, 25, 59, 61)), 1).opt
+			m6.AddOption(dup)
+			m6.AddOption(r.genOptCode(uint16(dup.Code()), 1).opt)
+		}
+		var s6 dhcpv6.DHCPv6 = m6
+		if i%2 == 1 {
+			if d, err := dhcpv6.FromBytes(m6.ToBytes()); err == nil {
+				s6 = d
+			}
+		}
+		what := "DHCPv6 with repeated options " + trunc(hx(m6.ToBytes()), 200)
+		evals += exerciseC20(r, subject{what, reflect.ValueOf(s6), s6.ToBytes, func() string { return dumpLine(dumpMsg(s6)) }}, maxSeq)
+		if mm, ok := s6.(*dhcpv6.Message); ok {
+			evals += exerciseC20(r, subject{"MessageOptions of " + what, reflect.ValueOf(mm.Options), s6.ToBytes, func() string { return dumpLine(dumpMsg(s6)) }}, maxSeq)
+		}
+	}
 	for i := 0; i < r.N(100, 5000); i++ {
 		nd := r.genOptCode(knownV6Codes[r.Rng.Intn(len(knownV6Codes))], 1)
 		o := nd.opt
